@@ -1535,8 +1535,14 @@ def r2_groups(rng, gid0, inputs, dicts, tiny, quick):
         g.lines += ["F 1 1003 %d %d 0 0 0 c2 0" % (small[0], small[1])]
         g.lines += ["set 1 %d %d" % (P[k], v) for k, v in pb.items()]
         g.lines += ["F 1 1002 %d %d 0 0 0 c2 0" % (src[0], src[1])]
+        # what the recorded finding predicts for 1002: the bytes of a fresh context that still has the FIRST frame's parameters
+        g.lines += ["ctx 2 heapz 0", "load 2 %d %d %d 0" % (d[0], dl, byref)]
+        g.lines += ["set 2 %d %d" % (P[k], v) for k, v in pa.items()]
+        g.lines += ["F 2 1004 %d %d 0 0 0 c2 0" % (src[0], src[1])]
         g.variants = [(1001, "ref", "eq", dict(ctx="heapz", hist=[])),
                       (1002, "params-changed-after-first-frame", "eq", dict(ctx="heapz", hist=["localdict-frame"], first=pa, then=pb))]
+        g.lines[g.lines.index("trace 0")] = "trace 1"
+        g.narrow = ("cparams-as", 1002, 1004, 1001)
     # (3) the prefix / dictionary placed right in front of the input
     for rep in range(3 if quick else 10):
         src = rng.choice(texts)
@@ -1558,6 +1564,7 @@ def r2_groups(rng, gid0, inputs, dicts, tiny, quick):
                         "F 3 1004 %d %d %d 0 0 c2 0" % (src[0], src[1], sa0 + dl)]
             g.variants = [(1001, "ref", "eq", dict(ctx="heapz", hist=[])), (1002, "prefix-adjacent", "eq", dict(ctx="heapz", hist=["contig-prefix"]))]
             g.det_pair = (1003, 1004)
+            g.narrow = ("same-as", 1001, 1003)      # the non-adjacent placement does not care about the switch
         else:
             t = Target("udict", src, level=lv, dct=("dict", d[0], dl), bias="r2-contig")
             g = mk(t, KEY_CONTIG)
@@ -1580,17 +1587,20 @@ def judge_wsweep(g, res, report, ctx):
     n = 0
     for l in out.split("\n"):
         t = l.split(" ")
-        if t[0] != "W" or len(t) < 8:
+        if t[0] != "W" or len(t) < 9:
             continue
         n += 1
-        o, ln, r0, nerr, ndiff, fcap, fsize = (int(x) for x in t[1:8])
+        o, ln, r0, nerr, ndiff, fcap, fsize, nraw = (int(x) for x in t[1:9])
         ctx.count(("r2", "capacity-sweep", ndiff == 0, nerr > 0), nontrivial=True)
         if ndiff >= 1000000:
             report("rt", g, dict(what="a frame produced under a tight capacity does not decode", off=o, len=ln))
         elif ndiff:
             report("differ", g, dict(what="ZSTD_compress2 of the same %d bytes: %d bytes with a large dst, %d bytes with dstCapacity %d "
                                           "(%d capacities of [r0, r0+48] differ, %d are refused)" % (ln, r0, fsize, fcap, ndiff, nerr),
-                                     off=o, len=ln), key=g.r2key)
+                                     off=o, len=ln, raw_fallback=nraw, other=ndiff - nraw),
+                   # the recorded finding = the first differing block is stored raw where the large-capacity output compresses it;
+                   # any other capacity dependence is a plain violation
+                   key=(g.r2key if nraw == ndiff else "capacity-dependence-not-raw-fallback"))
     if rc != 0 or n == 0:
         report("crash", g, dict(rc=rc, stderr=err[-600:], last=out[-300:]))
 
@@ -1704,6 +1714,22 @@ def run_(ctx):
             judge_wsweep(g, res, report, ctx)
             st, frames, dumps = {}, {}, []
         else:
+            if getattr(g, "narrow", None):
+                # the recorded finding is accepted only with its signature; otherwise the difference is reported without a key
+                fr0 = parse_output(res[1])[0]
+                fa, fb = fr0.get(g.narrow[1]), fr0.get(g.narrow[2])
+                if g.narrow[0] == "same-as":
+                    ok = fa is not None and fb is not None and same_frame(fa, fb)
+                else:
+                    # the frame was compressed with the cParams of the context that still has the first frame's parameters,
+                    # i.e. with the CDict's (cdsame), and not with those of the reference
+                    def cp(f):
+                        d = (f or {}).get("dump") or {}
+                        return tuple(d.get(k) for k in ("cl", "hl", "sl", "mm", "tl", "strat", "row", "cdsame"))
+                    fc = fr0.get(g.narrow[3])
+                    ok = None not in cp(fa) and cp(fa) == cp(fb) and cp(fa)[-1] == 1 and cp(fa) != cp(fc)
+                if not ok:
+                    g.r2key = g.r2key + "-unexpected-shape"
             st, frames, dumps = judge_group(g, res, report)
             if getattr(g, "det_pair", None):
                 fa, fb = frames.get(g.det_pair[0]), frames.get(g.det_pair[1])
